@@ -80,6 +80,14 @@ def verify_functions(R, names, engine_opts=None):
         t1 = time.time()
         try:
             obs = ex.verify(c)
+        except KeyError as e:
+            if 'function not found in IR' not in str(e):
+                raise
+            # the contracted signature no longer exists (renamed, or a parameter type changed): the contract does not fit the code;
+            # undecided for the proof part -- the property's bounded run still decides the behaviour on concrete inputs
+            R.out_of_reach.append((n, 'no function with the contracted signature in the current source: %s' % e))
+            R.log('OUT OF REACH', n, e)
+            continue
         except symex.OutOfReach as e:
             R.out_of_reach.append((n, str(e)))
             R.log('OUT OF REACH', n, e)
